@@ -301,10 +301,16 @@ def measures(seed, n, perms):
             klass = "polyhedron F=%d V=%d" % (len(faces), len(O.polyhedron_vertices(ph[1])))
             acc.case(klass)
             case = dict(polyhedron=ser(("Polyhedron", tuple(tuple(f) for f in fs))))
-            r = _call(lambda: g.ConvexPolyhedron(tuple(g.ConvexPolygon(tuple(P(v) for v in f)) for f in fs)))
+            shift = (Fraction(0), Fraction(0), Fraction(0)) if k % 2 == 0 else (Fraction(-3), Fraction(2), Fraction(-5, 2))
+            r = _call(lambda: g.ConvexPolyhedron(tuple(g.ConvexPolygon(tuple(P(O.add(v, shift)) for v in f)) for f in fs)))
             if r[0] == "exc":
                 acc.fail(klass, "constructor raised %r" % (r[1],), case)
                 continue
+            if k % 2 == 1:  # built elsewhere and moved into place: the measures of the moved receiver are those of the body
+                mv = _call(r[1].move, g.Vector(*[O.to_number(-c, "float") for c in shift]))
+                if mv[0] == "exc":
+                    acc.fail(klass, "move raised %r" % (mv[1],), case)
+                    continue
             V, A, L, V2 = _call(r[1].volume), _call(r[1].area), _call(r[1].length), _call(g.volume, r[1])
             if any(x[0] == "exc" for x in (V, A, L, V2)):
                 acc.fail(klass, "a measure raised: %r" % ([x[1] for x in (V, A, L, V2) if x[0] == "exc"],), case)
